@@ -132,10 +132,16 @@ func mismatchProps(fn string, mm Mismatch) []string {
 		if transferFns[fn] {
 			return []string{"C01"}
 		}
+		if fn == vmcommon.BuiltInFunctionESDTNFTCreate {
+			return []string{"C02", "C07"} // "returns and stores nonce = previous + 1": the entry has to sit under that nonce
+		}
 		return []string{"C02"}
 	case "frozen":
 		return []string{"C04", "C03"}
 	case "metadata":
+		if fn == vmcommon.BuiltInFunctionESDTNFTCreate {
+			return []string{"C08", "C07"}
+		}
 		return []string{"C08"}
 	case "roles":
 		if fn == vmcommon.BuiltInFunctionESDTNFTCreateRoleTransfer {
@@ -639,6 +645,14 @@ func (e *Engine) afterFailedDelivery(c *Call, rec *CallRecord) {
 		return
 	}
 	if msg.Refund {
+		if len(rec.V.MustFail) > 0 {
+			// the one corner where two statements meet: a refund into an account that meanwhile holds a different hash
+			// under the same key must be rejected (C08); the returned tokens are then gone, which is not a C01 finding
+			for _, it := range msg.Items {
+				e.M.addSupply(it.Suffix, new(big.Int).Neg(it.Qty))
+			}
+			return
+		}
 		rec.Clauses = append(rec.Clauses, clause(pC01, c.Fn+"/refund-refused", "the return-after-error refund %s was refused: the tokens are lost (%v)", c.String(), rec.Res.Err))
 		for _, it := range msg.Items {
 			e.M.addSupply(it.Suffix, new(big.Int).Neg(it.Qty))
@@ -690,6 +704,17 @@ func (e *Engine) Apply(op Op) *CallRecord {
 	case "payable":
 		e.W.Shards[op.Shard].Payable[string(op.Addr)] = op.Mode
 		e.M.Shards[op.Shard].Payable[string(op.Addr)] = op.Mode
+	case "plant":
+		// the one hand-written ledger state (DESIGN section 3): an account holds a DIFFERENT hash under an existing
+		// (token, nonce) - needed for C08's "a transfer into an account that holds a different hash ... is rejected"
+		tok, nonce := []byte(op.Token), op.Count
+		sfx := suffixOf(tok, nonce)
+		sh := int(e.M.shardOf(op.Addr))
+		qty := big.NewInt(int64(op.Mode))
+		meta := &RefMeta{Nonce: nonce, Name: []byte("planted"), Creator: cp(op.Addr), Hash: []byte("planted-other-hash"), URIs: [][]byte{[]byte("p")}}
+		e.W.Shards[sh].get(op.Addr).Storage[pfxESDT+sfx] = RefEncodeToken(&RefToken{Type: uint32(vmcommon.NonFungible), Value: qty, Meta: meta})
+		e.M.acc(sh, op.Addr).setEntry(sfx, &Entry{Value: new(big.Int).Set(qty), Meta: meta})
+		e.M.addSupply(sfx, qty)
 	case "seed-handover":
 		// a hand-over message for a token whose previous creator is not part of the modelled universe (its counter is
 		// whatever that creator reached): op.Call carries caller (old holder), recipient (new holder) and [token, counter]
